@@ -47,11 +47,11 @@ func pathClass(line string) string {
 
 // straceRun runs the crash job under strace, killing the process at the N-th traced syscall of a thread
 // (N <= 0: no injection). Returns the child result and the trace.
-func straceRun(job CrashJob, n int, traceFile string) (mon.ChildResult, []string) {
+func straceRun(job CrashJob, kind string, n int, traceFile string) (mon.ChildResult, []string) {
 	b, _ := json.Marshal(job)
 	args := []string{"-f", "-y", "-o", traceFile, "-e", "trace=" + straceSyscalls, "-e", "signal=none"}
 	if n > 0 {
-		args = append(args, "-e", fmt.Sprintf("inject=%s:signal=SIGKILL:when=%d", straceSyscalls, n))
+		args = append(args, "-e", fmt.Sprintf("inject=%s:signal=SIGKILL:when=%d", kind, n))
 	}
 	args = append(args, os.Args[0], "child", "crashrun", string(b))
 	cr := mon.RunChild("/usr/bin/strace", args, []string{"GOMAXPROCS=1"}, nil, 180*time.Second)
@@ -90,23 +90,43 @@ func c06Strace(r *mon.Run, sc crashScenario, pristine string, ids map[string]str
 		return
 	}
 	fixRemotes(filepath.Join(work, "w"), pristine)
-	cr, trace := straceRun(CrashJob{Dir: filepath.Join(work, "w", "r0"), Scenario: sc.Name, KillAt: -1, Ids: ids}, 0, filepath.Join(work, "trace"))
+	cr, trace := straceRun(CrashJob{Dir: filepath.Join(work, "w", "r0"), Scenario: sc.Name, KillAt: -1, Ids: ids}, "", 0, filepath.Join(work, "trace"))
 	os.RemoveAll(work)
 	if cr.ExitCode != 0 {
 		r.Inconclusive("strace dry run of " + sc.Name + " failed: " + mon.CrashExcerpt(cr.Out))
 		return
 	}
-	perThread := map[string]int{}
-	maxN := 0
-	for _, l := range trace {
-		if m := straceLine.FindStringSubmatch(l); m != nil {
-			perThread[m[1]]++
-			if perThread[m[1]] > maxN {
-				maxN = perThread[m[1]]
+	// The invocation counter of strace's injection is per thread, so a kill position on a quiet thread is
+	// shadowed whenever a busier thread reaches the same count first. Enumerating the positions per syscall
+	// family (create/open, write, rename, mkdir, unlink) keeps the counters small and reaches the positions
+	// inside one logical write (open - write - rename) separately.
+	families := []string{"openat", "write,pwrite64", "renameat,renameat2,rename", "mkdirat,mkdir", "unlinkat,unlink,linkat,link,ftruncate"}
+	type pos struct {
+		kind string
+		n    int
+	}
+	var positions []pos
+	for _, fam := range families {
+		member := map[string]bool{}
+		for _, k := range strings.Split(fam, ",") {
+			member[k] = true
+		}
+		perThread := map[string]int{}
+		maxN := 0
+		for _, l := range trace {
+			if m := straceLine.FindStringSubmatch(l); m != nil && member[m[2]] {
+				perThread[m[1]]++
+				if perThread[m[1]] > maxN {
+					maxN = perThread[m[1]]
+				}
 			}
 		}
+		for n := 1; n <= maxN; n++ {
+			positions = append(positions, pos{fam, n})
+		}
 	}
-	r.Count("strace_syscalls_busiest_thread/"+sc.Name, maxN)
+	maxN := len(positions)
+	r.Count("strace_kill_positions/"+sc.Name, maxN)
 	if maxN == 0 {
 		r.Inconclusive("strace saw no syscall for " + sc.Name)
 		return
@@ -118,7 +138,6 @@ func c06Strace(r *mon.Run, sc crashScenario, pristine string, ids map[string]str
 		completed bool
 	}
 	outs := parallel(maxN, func(i int) outcome {
-		n := i + 1
 		w := world.ScratchDir("c06-st-")
 		defer os.RemoveAll(w)
 		if err := copyTree(pristine, filepath.Join(w, "w")); err != nil {
@@ -126,7 +145,7 @@ func c06Strace(r *mon.Run, sc crashScenario, pristine string, ids map[string]str
 		}
 		fixRemotes(filepath.Join(w, "w"), pristine)
 		victim := filepath.Join(w, "w", "r0")
-		kcr, tr := straceRun(CrashJob{Dir: victim, Scenario: sc.Name, KillAt: -1, Ids: ids}, n, filepath.Join(w, "trace"))
+		kcr, tr := straceRun(CrashJob{Dir: victim, Scenario: sc.Name, KillAt: -1, Ids: ids}, positions[i].kind, positions[i].n, filepath.Join(w, "trace"))
 		site, _ := killSite(tr)
 		// strace ends itself with the signal that ended the tracee
 		killed := kcr.Signal == "killed" || kcr.ExitCode == 137
